@@ -1355,6 +1355,9 @@ func (st *Runtime) evaluateArgs(fnType reflect.Type, args CallArgs, pipedArg *re
 
 	if !args.HasPipeSlot && pipedArg != nil {
 		in := fnType.In(slot)
+		if slot >= numArgsRequired {
+			in = in.Elem() // no fixed parameter left: the piped value is the first element of the variadic tail
+		}
 		if !(*pipedArg).IsValid() {
 			return nil, fmt.Errorf("piped first argument for %s is not a valid value", fnType)
 		}
@@ -1374,6 +1377,9 @@ func (st *Runtime) evaluateArgs(fnType reflect.Type, args CallArgs, pipedArg *re
 		in := fnType.In(slot)
 		var term reflect.Value
 		if args.Exprs[i].Type() == NodeUnderscore {
+			if pipedArg == nil {
+				return nil, fmt.Errorf("argument for position %d in %s is a '_' placeholder, but there is no piped value", slot, fnType)
+			}
 			term = *pipedArg
 		} else {
 			term = st.evalPrimaryExpressionGroup(args.Exprs[i])
@@ -1397,6 +1403,9 @@ func (st *Runtime) evaluateArgs(fnType reflect.Type, args CallArgs, pipedArg *re
 		for i < len(args.Exprs) {
 			var term reflect.Value
 			if args.Exprs[i].Type() == NodeUnderscore {
+				if pipedArg == nil {
+					return nil, fmt.Errorf("argument for position %d in %s is a '_' placeholder, but there is no piped value", slot, fnType)
+				}
 				term = *pipedArg
 			} else {
 				term = st.evalPrimaryExpressionGroup(args.Exprs[i])
@@ -1785,6 +1794,9 @@ func buildCache(typ reflect.Type, cache map[string][]int, parent []int) {
 				buildCache(typ, cache, index)
 			}
 		}
-		cache[field.Name] = index
+		// a field hides the fields of the same name that are promoted from deeper levels (Go's rule)
+		if old, ok := cache[field.Name]; !ok || len(index) <= len(old) {
+			cache[field.Name] = index
+		}
 	}
 }
